@@ -6,7 +6,29 @@ import DaskModel.Model.Rename
 namespace Dask.TaskTerm
 open Dask
 
+/-- a finite renaming given as an association list; identity elsewhere -/
+def rhoOfList (kvs : List (Obj × Obj)) : Obj → Obj := fun k => (kvs.lookup k).getD k
+
+def bindTo? : SExp → Option (Option Obj)
+  | .sym "nobind" => some none
+  | e => (Obj.ofSExp? e).map some
+
+/-- `(clone_spec_layer keys rho bindto|nobind graph)` ↦ `(layer bound)`: `Layer.clone` on task-spec nodes -/
+def hCloneSpecLayer : Handler := handler fun
+  | [keys, rho, bindTo, g] => do
+    let r := cloneSpecLayer (← objs? keys) (rhoOfList (← lgraph? rho)) (← bindTo? bindTo) (← ngraph? g)
+    pure (.list [ofNGraph r.1, SExp.ofBool r.2])
+  | _ => none
+
+/-- `(clone_legacy_layer keys rho bindto|nobind bindfn graph)` ↦ `(layer bound)`: `Layer.clone` on legacy values -/
+def hCloneLegacyLayer : Handler := handler fun
+  | [keys, rho, bindTo, bindFn, g] => do
+    let r := cloneLegacyLayer (← objs? keys) (rhoOfList (← lgraph? rho)) (← bindTo? bindTo) (← Obj.ofSExp? bindFn) (← lgraph? g)
+    pure (.list [ofLGraph r.1, SExp.ofBool r.2])
+  | _ => none
+
 /-- extra handlers of the C16 model: `(op, handler)` pairs appended to the table of `dm_graph` -/
-def renameIoHandlers : List (String × Handler) := []
+def renameIoHandlers : List (String × Handler) :=
+  [("clone_spec_layer", hCloneSpecLayer), ("clone_legacy_layer", hCloneLegacyLayer)]
 
 end Dask.TaskTerm
